@@ -573,20 +573,20 @@ class Configuration(_Configuration):
         # clearing the current configuration to be able to re-parse it
         self._clear()
 
-        if self._text:
-            if not self.parser.set_text(fname):
-                return False
-        else:
-            # resolve any potential symlink, and check it is a file
-            target = os.path.realpath(fname)
-            if not os.path.isfile(target):
-                return False
-            if not self.parser.set_file(target):
-                return False
+        # from here on the neighbors are parked in _previous_neighbors: whatever goes wrong
+        # before the commit, they are put back, so that a failed reload changes nothing
+        try:
+            parsed = self._parse_configuration(fname)
+        except BaseException:
+            self._rollback_reload()
+            raise
 
-        self.process.add_api()
+        if parsed is None:
+            # the configuration could not be read at all
+            self._rollback_reload()
+            return False
 
-        if self.parse_section('root') is not True:
+        if parsed is not True:
             self._rollback_reload()
             line_str = ' '.join(self.parser.line)
             return self.error.set(
@@ -601,6 +601,23 @@ class Configuration(_Configuration):
             return check
 
         return True
+
+    def _parse_configuration(self, fname: str) -> bool | None:
+        """Read and parse the configuration: True when parsed, False on a syntax error, None when unreadable."""
+        if self._text:
+            if not self.parser.set_text(fname):
+                return None
+        else:
+            # resolve any potential symlink, and check it is a file
+            target = os.path.realpath(fname)
+            if not os.path.isfile(target):
+                return None
+            if not self.parser.set_file(target):
+                return None
+
+        self.process.add_api()
+
+        return self.parse_section('root') is True
 
     def validate(self) -> bool:
         for neighbor in self.neighbors.values():
